@@ -462,13 +462,25 @@ Theorem GenTie_gcd_rs : forall bits m a b,
   g_mat_apply bits (nlimbs bits) (mat_tuple m) a b = GcdMatrix.apply bits m a b /\
   g_mat_from bits (nlimbs bits) a b = omap mat_tuple (GcdMatrix.from bits a b) /\
   g_alg_gcd bits (nlimbs bits) a b = Gcd.gcd bits a b /\
+  g_alg_gcd_extended bits (nlimbs bits) a b = Gcd.gcd_extended bits a b /\
   g_alg_inv_mod bits (nlimbs bits) a b = Gcd.inv_mod bits a b.
 Proof.
   intros bits m a b H0 HbB HB Wm Ca Cb.
   exact (conj (g_mat_apply_eq bits H0 ltac:(pose proof (nlimbs_nonneg bits H0); lia) m a b Wm Ca Cb)
         (conj (g_mat_from_eq bits a b H0 HbB HB Ca Cb)
-        (conj (g_alg_gcd_eq bits H0 HbB HB a b Ca Cb) (g_alg_inv_mod_eq bits H0 HbB HB a b Ca Cb)))).
+        (conj (g_alg_gcd_eq bits H0 HbB HB a b Ca Cb)
+        (conj (g_alg_gcd_extended_eq bits H0 HbB HB a b Ca Cb) (g_alg_inv_mod_eq bits H0 HbB HB a b Ca Cb))))).
 Qed.
+
+(* src/gcd.rs (gcd, lcm, gcd_extended) and Uint::inv_mod (src/modular.rs) *)
+Theorem GenTie_gcd_uint : forall bits a b,
+  0 <= bits -> bits + 7 < B -> 64 * nlimbs bits < B -> canon bits a -> canon bits b ->
+  g_u_gcd bits (nlimbs bits) a b = Gcd.uint_gcd bits a b /\
+  g_u_gcd_extended bits (nlimbs bits) a b = Gcd.uint_gcd_extended bits a b /\
+  g_u_inv_mod bits (nlimbs bits) a b = Gcd.inv_mod bits a b /\
+  g_u_lcm bits (nlimbs bits) a b = Gcd.lcm bits a b.
+Proof. intros bits a b H0 HbB HB Ca Cb. exact (g_u_wrappers_eq bits H0 HbB HB a b Ca Cb). Qed.
+Print Assumptions GenTie_gcd_uint.
 Print Assumptions GenTie_gcd_rs.
 
 (* the premises are satisfiable and the generated code computes: reciprocal(2^63) = 2^64 - 1 *)
@@ -494,6 +506,8 @@ Example GenTie_nonvacuous :
   g_leading_zeros 65 2 [5; 0] = Val 62 /\
   g_mat_from_u64 240 46 = Val (9, 47, 23, 120, false) /\
   g_alg_gcd 65 2 [0; 1] [2 ^ 63 + 2 ^ 62; 0] = Val [2 ^ 62; 0] /\
+  g_u_lcm 65 2 [6; 0] [4; 0] = Val (Some [12; 0]) /\
+  g_alg_gcd_extended 65 2 [240; 0] [46; 0] = Val ([2; 0], [9; 0], [47; 0], false) /\
   g_alg_inv_mod 65 2 [3; 0] [13; 1] = Val (Some [6148914691236517210; 0]) /\
   g_mat_from_u64_prefix (2 ^ 63 + 12345) (2 ^ 62 + 999) = Val (0, 1, 1, 2, false) /\
   g_mat_from_u64_prefix (2 ^ 63 + 12345) 5700357408780482764 = Val (1009150, 1632839, 1536909, 2486771, false) /\
